@@ -273,6 +273,52 @@ def check_c03(tier):
                     V.classify([dev], ex, what)
                 else:
                     V.violation(ex, what)
+    # ---- what the server attributes to a document, through the real binary: textDocument/documentSymbol lists every declared
+    # fixture once, by name and def line (documents with several fixtures of one name: class-level overrides, name= aliases)
+    if not os.environ.get("VERIF_REPLAY"):
+        import lsp
+        import shutil
+        C.build_server()
+        multi = ("import pytest\n\n\n@pytest.fixture\ndef client():\n    return 0\n\n\n@pytest.fixture\ndef other():\n    return 1\n\n\n"
+                 "class TestA:\n    @pytest.fixture\n    def client(self, client):\n        return client\n\n    def test_a(self, client):\n        pass\n\n\n"
+                 "class TestB:\n    @pytest.fixture(name=\"client\")\n    def special_client(self):\n        return 2\n\n    def test_b(self, client, other):\n        pass\n\n\n"
+                 "@pytest.fixture\ndef client():\n    return 3\n")
+        docs = [("multi_same_name.py", multi)] + [(os.path.basename(p), open(p, encoding="utf-8").read()) for p in corpus]
+        sbase = os.path.join(C.BUILD, "ws", "c03-%d" % os.getpid())
+        shutil.rmtree(sbase, ignore_errors=True)
+
+        def sym_session(job):
+            n, (name, text) = job
+            root = os.path.join(sbase, "s%d" % n)
+            os.makedirs(root, exist_ok=True)
+            path = os.path.join(root, "test_doc_%d.py" % n)
+            srv = lsp.Server()
+            try:
+                srv.initialize(root)
+                srv.did_open(path, text)
+                ds = srv.doc_request("textDocument/documentSymbol", path) or []
+                return sorted((x["name"], x["selectionRange"]["start"]["line"] + 1) for x in ds)
+            except (lsp.ServerDied, lsp.Timeout) as e:
+                return {"error": str(e)}
+            finally:
+                srv.close()
+                shutil.rmtree(root, ignore_errors=True)
+
+        for (name, text), r in zip(docs, lsp.run_parallel(list(enumerate(docs)), sym_session, workers=6)):
+            V.count()
+            V.nontriv("symbols:" + name)
+            if r is None or isinstance(r, dict):
+                V.violation({"document": name, "result": r, "text": text}, "server died or did not answer documentSymbol")
+                continue
+            try:
+                cdefs, _ = cpyextract.extract(text)
+            except SyntaxError:
+                continue
+            want_syms = sorted((d["name"], d["line"]) for d in cdefs)
+            if r != [tuple(x) for x in want_syms] and [list(x) for x in r] != [list(x) for x in want_syms]:
+                V.violation({"document": name, "document_symbols": r, "declared_fixtures": want_syms, "text": text},
+                            "documentSymbol does not list exactly the fixtures the document declares (each once, at its def line)")
+        shutil.rmtree(sbase, ignore_errors=True)
     V.sample({"function": cases[0][1]["fn"], "expect": cases[0][1]["expect"], "text": texts[0]})
     cov = {"states": sum(m["distinct"] for m in metas), "transitions": sum(m["transitions"] for m in metas),
            "traces_validated_against_impl": len(results), "corpus_files": len(corpus), "exhaustive": True,
